@@ -46,7 +46,7 @@ def snapshot(d):
 def component_of(rng, lmax=None):
     # every version of a name must have the same function types (the index refuses anything else): lmax >= 2 gives
     # {gto, gto_spherical} always; the 'differing-types' kind below uses lmax = 1 on purpose
-    b = gen.gen_basis(rng, nel=rng.randint(1, 3), ecp_prob=0.0, ecp_only_prob=0.0, allow_fused=False,
+    b = gen.gen_basis(rng, nel=rng.randint(1, 3), ecp_prob=0.0, ecp_only_prob=0.0, allow_fused=rng.random() < 0.4,
                       lmax=rng.randint(2, 3) if lmax is None else lmax)
     c = to_kind(b, 'component')
     for el in c['elements'].values():
@@ -111,7 +111,7 @@ def sequence(ctx, seed):
             refs = gen_refs(rng, zs)
             role, family = 'orbital', 'addfam'
             kind = rng.choice(['ok', 'ok', 'ok', 'ok', 'invalid-data', 'invalid-role', 'invalid-family', 'name-clash', 'bad-refs', 'file', 'differing-types',
-                               'case-twin'])
+                               'case-twin', 'invalid-fused'])
             model_refs = True
             if seed % 3 == 0 and step < 2 and nsteps >= 3:
                 # a fixed opening: a valid addition, then a new version of it that is refused, then (retry) the corrected one
@@ -132,6 +132,11 @@ def sequence(ctx, seed):
                 rng.shuffle(muts)
                 if not any(m(comp, rng) for m in muts):
                     kind = 'ok'
+            elif kind == 'invalid-fused':
+                # an sp shell with a primitive no contraction uses (the rules for fused shells are the validator's own code path)
+                el = comp['elements'][rng.choice(zs)]
+                el['electron_shells'].append({'function_type': 'gto', 'region': '', 'angular_momentum': [0, 1], 'exponents': ['5.0', '1.0', '0.2'],
+                                              'coefficients': [['0.3', rng.choice(['0.0', '0.00', '0.0E+00']), '0.4'], ['0.2', '0.0', '0.3']]})
             elif kind == 'invalid-role':
                 role = 'principal'
             elif kind == 'invalid-family':
@@ -193,7 +198,7 @@ def sequence(ctx, seed):
                 if k != 'METADATA.json' and after.get(k) != v:
                     ctx.violation(site, 'overwritten', 'file %s was changed or removed by an addition' % k, replay)
             if r[0] != 'ok':
-                if kind in ('differing-types', 'invalid-data', 'bad-refs') and (rng.random() < 0.7 or seed % 3 == 0):
+                if kind in ('differing-types', 'invalid-data', 'invalid-fused', 'bad-refs') and (rng.random() < 0.7 or seed % 3 == 0):
                     retry = (name, fb, version, sub)
                 if after != before:
                     ctx.violation(site, 'failed-add-changed-directory:' + kind, 'a refused addition (%s) left the directory changed: new files %s'
@@ -206,7 +211,7 @@ def sequence(ctx, seed):
             if kind in ('invalid-role', 'invalid-family') and (fb + '.metadata.json') in before:
                 # the basis metadata file exists already: role and family arguments are not used (and nothing invalid is stored)
                 kind = 'ok'
-            if kind in ('invalid-data', 'invalid-role', 'invalid-family', 'bad-refs', 'differing-types'):
+            if kind in ('invalid-data', 'invalid-fused', 'invalid-role', 'invalid-family', 'bad-refs', 'differing-types'):
                 ctx.violation(site, 'invalid-accepted:' + kind, 'input that fails validation (%s) was added' % kind, replay)
                 continue
             added[(name, version)] = (comp, refs, 'desc of ' + name)
